@@ -34,8 +34,20 @@ func cfgFacts(c *Ctx, site ssa.Instruction) []string {
 	return out
 }
 
+// allFacts: every must-fact at the site (sorted).
+func allFacts(c *Ctx, site ssa.Instruction) []string {
+	ff := c.F.Analyze(site.Parent())
+	var out []string
+	for a := range ff.At(site) {
+		out = append(out, a)
+	}
+	sort.Strings(out)
+	return out
+}
+
 type capEntry struct {
 	name  string
+	all   []string // every fact at the site (for the "nothing but configuration" obligation)
 	conds []string
 	pos   string
 	value string // for parametrised capabilities: description of the argument
@@ -85,7 +97,7 @@ func extractCaps(c *Ctx, f *ssa.Function) (caps []capEntry, problems []string) {
 						continue
 					}
 					if s, ok := constString(st.Val); ok {
-						caps = append(caps, capEntry{name: s, conds: cfgFacts(c, st), pos: c.P.InstrPos(st)})
+						caps = append(caps, capEntry{name: s, all: allFacts(c, st), conds: cfgFacts(c, st), pos: c.P.InstrPos(st)})
 					}
 				}
 			}
@@ -104,14 +116,14 @@ func extractCaps(c *Ctx, f *ssa.Function) (caps []capEntry, problems []string) {
 		}
 		consts, others := storedStrings(call.Call.Args[1])
 		for _, s := range consts {
-			caps = append(caps, capEntry{name: s, conds: cfgFacts(c, in), pos: c.P.InstrPos(in)})
+			caps = append(caps, capEntry{name: s, all: allFacts(c, in), conds: cfgFacts(c, in), pos: c.P.InstrPos(in)})
 		}
 		for _, o := range others {
 			switch x := o.(type) {
 			case *ssa.Call:
 				if g := staticCallee(&x.Call); g != nil && qualFuncName(g) == "fmt.Sprintf" {
 					format, _ := constString(x.Call.Args[0])
-					caps = append(caps, capEntry{name: format, conds: cfgFacts(c, in), pos: c.P.InstrPos(in), value: describeVarargs(x.Call.Args[1])})
+					caps = append(caps, capEntry{name: format, all: allFacts(c, in), conds: cfgFacts(c, in), pos: c.P.InstrPos(in), value: describeVarargs(x.Call.Args[1])})
 					continue
 				}
 			}
@@ -123,7 +135,7 @@ func extractCaps(c *Ctx, f *ssa.Function) (caps []capEntry, problems []string) {
 				}
 			}
 			if isAuth {
-				caps = append(caps, capEntry{name: "AUTH <mechs>", conds: cfgFacts(c, in), pos: c.P.InstrPos(in), value: strings.Join(ls, " | ")})
+				caps = append(caps, capEntry{name: "AUTH <mechs>", all: allFacts(c, in), conds: cfgFacts(c, in), pos: c.P.InstrPos(in), value: strings.Join(ls, " | ")})
 			} else if d := describe(o); !strings.HasPrefix(d, "slice(") && !strings.Contains(d, "phi{") {
 				problems = append(problems, "unrecognised appended value "+d+" at "+c.P.InstrPos(in))
 			}
@@ -551,6 +563,26 @@ func ruleCapsTable(c *Ctx) {
 					}
 				}
 			}
+		}
+	}
+	// nothing but the configuration decides: besides the configuration atoms, a capability's site may only carry the
+	// facts that hold for the whole list (those of the first, unconditional entry: "this is EHLO", "the argument
+	// parsed") — an entry that also depends on connection state (already authenticated, a transaction open, …) is
+	// advertised under fewer circumstances than the property states
+	if len(caps) > 0 {
+		base := map[string]bool{}
+		for _, a := range caps[0].all {
+			base[a] = true
+		}
+		for _, ce := range caps {
+			var extra []string
+			for _, a := range ce.all {
+				if base[a] || cfgAtomRe.MatchString(a) || strings.Contains(a, "loopvar:") {
+					continue
+				}
+				extra = append(extra, a)
+			}
+			R.Ob("(*Conn).handleGreet/capability "+ce.name+" depends on the configuration only", ce.pos, len(extra) == 0, fmt.Sprintf("%s is listed only when also %v: the property lets nothing but the configuration and the TLS state decide", ce.name, extra))
 		}
 	}
 	R.Extra["capability_table"] = rows
